@@ -15,7 +15,7 @@
 //!           | R(arrival)              -- Rc<dyn ArrivalBound>
 //!           | N
 //!           | O(rate,epsilon)         -- ApproximatedPoisson::new(rate/10^4, epsilon/10^4)
-//!           | B(T,k)                  -- user-defined model: k jobs at once every T (default steps_iter)
+//!           | B(T,k,g)                -- user-defined model: k jobs at once every T, g > 0: again g ticks later (default steps_iter)
 //! cost     := c(W) | m[w,w,..] | k[w,w,..] | x[w,w,..] | u[w,w,..] (user-defined, trait defaults)
 //! supply   := D | Q(budget,period) | K(budget,deadline,period)
 //! ```
@@ -66,8 +66,10 @@ pub enum ArrDesc {
     /// A model the *user* wrote against the public trait: bursts of `k` simultaneous jobs every
     /// `T` time units, implementing only `number_arrivals` (= k * ceil(delta / T)) and
     /// `clone_with_jitter` (via `Propagated`), so that the trait's default, brute-force
-    /// `steps_iter` runs
-    User(u64, u64),
+    /// `steps_iter` runs.  Third field `g` > 0: a second burst of `k` jobs `g` ticks after each
+    /// first one (`g <= T / 2`), so that the curve steps at two nearby (for `g = 1`: consecutive)
+    /// lengths: k * ceil(delta / T) + k * ceil((delta - g) / T).
+    User(u64, u64, u64),
 }
 
 /// See [ArrDesc::User].
@@ -75,6 +77,7 @@ pub enum ArrDesc {
 pub struct UserBurst {
     pub period: u64,
     pub burst: u64,
+    pub gap: u64,
 }
 
 impl ArrivalBound for UserBurst {
@@ -83,7 +86,13 @@ impl ArrivalBound for UserBurst {
         if x == 0 {
             0
         } else {
-            (self.burst * ((x + self.period - 1) / self.period)) as usize
+            let first = (x + self.period - 1) / self.period;
+            let second = if self.gap > 0 && x > self.gap {
+                (x - self.gap + self.period - 1) / self.period
+            } else {
+                0
+            };
+            (self.burst * (first + second)) as usize
         }
     }
 
@@ -149,9 +158,10 @@ impl ArrDesc {
                 Box::new(inner)
             }
             ArrDesc::Never => Box::new(Never {}),
-            ArrDesc::User(t, k) => Box::new(UserBurst {
+            ArrDesc::User(t, k, g) => Box::new(UserBurst {
                 period: (*t).max(1),
                 burst: (*k).max(1),
+                gap: *g,
             }),
             ArrDesc::Poisson(r, e) => Box::new(arrival::ApproximatedPoisson::new(
                 *r as f64 / 10_000.0,
@@ -203,7 +213,7 @@ impl fmt::Display for ArrDesc {
             ArrDesc::Rc(a) => write!(f, "R({})", a),
             ArrDesc::Never => write!(f, "N"),
             ArrDesc::Poisson(r, e) => write!(f, "O({},{})", r, e),
-            ArrDesc::User(t, k) => write!(f, "B({},{})", t, k),
+            ArrDesc::User(t, k, g) => write!(f, "B({},{},{})", t, k, g),
         }
     }
 }
@@ -394,8 +404,14 @@ impl<'a> Parser<'a> {
                 let t = self.num()?;
                 self.expect(b',')?;
                 let k = self.num()?;
+                let g = if self.peek() == Some(b',') {
+                    self.pos += 1;
+                    self.num()?
+                } else {
+                    0
+                };
                 self.expect(b')')?;
-                Ok(ArrDesc::User(t, k))
+                Ok(ArrDesc::User(t, k, g))
             }
             Some(b'C') => {
                 self.expect(b'[')?;
